@@ -66,18 +66,23 @@ def check (w mask : Bytes) : Option Bool :=
 
 /-! ### reference arithmetic of GF(2^8) and the syndromes (specification side) -/
 
-/-- carry-less (GF(2)[x]) product of the low `k` bits of `a` with `b` -/
+/-- bit `k` of `a` as a number (0 or 1) -/
+def bitAt (a k : Nat) : Nat := Nat.land (Nat.shiftRight a k) 1
+
+/-- carry-less (GF(2)[x]) product of the low `k` bits of `a` with `b`:
+the xor of `b·x^i` over the set bits `i < k` of `a` -/
 def clmulAux : Nat → Nat → Nat → Nat
   | 0, _, _ => 0
-  | k + 1, a, b => Nat.xor (cond (Nat.testBit a k) (Nat.shiftLeft b k) 0) (clmulAux k a b)
+  | k + 1, a, b => Nat.xor (Nat.mul (bitAt a k) (Nat.shiftLeft b k)) (clmulAux k a b)
 
 /-- carry-less product of two octets (a polynomial of degree ≤ 14) -/
 def clmul (a b : Nat) : Nat := clmulAux 8 a b
 
-/-- long division by the degree-8 polynomial `m`: clear the bits `k+7 … 8` from the top -/
+/-- long division by the degree-8 polynomial `m`: cancel the coefficients of x^(k+7) … x^8 from the
+top by adding `m·x^(k-1)`, … , `m·x^0` where the coefficient is set -/
 def reduceAux (m : Nat) : Nat → Nat → Nat
   | 0, p => p
-  | k + 1, p => reduceAux m k (cond (Nat.testBit p (k + 8)) (Nat.xor p (Nat.shiftLeft m k)) p)
+  | k + 1, p => reduceAux m k (Nat.xor p (Nat.mul (bitAt p (k + 8)) (Nat.shiftLeft m k)))
 
 /-- product in GF(2)[x]/(m), `m` of degree 8 given as a 9-bit number, operands octets -/
 def clmulMod (m a b : Nat) : Nat := reduceAux m 7 (clmul a b)
